@@ -23,6 +23,11 @@ CLAIMED = {
          "and the XOR-scatter/prefix-XOR column broadcast on reinterpreted bits are exact, for every itemsize 1/2/4/8 and mixed dtype pairs",
          "bounds: rows<=3 (4), row length<=2 (3); ufuncs subtract/less/bitwise_and/maximum/add/bitwise_xor (+equal/minimum/floor_divide/logical_or), "
          "unary negative/invert/logical_not/absolute; numpy bool scalars (not numbers.Number) and float arithmetic are outside the claim"),
+ "C07": ("4/C07", "cumsum (method and np.cumsum), add/subtract/bitwise_xor.accumulate, sort, unique with and without counts, diff of order 1..3 on "
+         "symbolic row lengths (empty rows anywhere) and symbolic cells: per-row restart of scans, per-row sorted permutation, per-row distinct values and "
+         "multiplicities, per-row n-th differences; operand unchanged",
+         "bounds: rows<=3 (4), row length<=3 (4); int64 cells (Int-represented, |v|<=1000, through the bit-pattern bijection for the offset broadcast; 64-bit "
+         "vectors for xor); float/bool inputs of sort/unique/diff not yet covered"),
  "C05": ("4/C05", "sum/prod/any/all/max/min and bitwise_or/xor/and.reduce per row through the method, np.<func> and ufunc.reduce entry points, keepdims, "
          "and axis=None, over symbolic row lengths with empty rows anywhere (all-empty and zero rows included); multiplication as an uninterpreted left fold",
          "bounds: rows<=4 (5), row length<=3 (4); max/min with non-empty rows; result element type not compared (C04's subject); mean/argmax/argmin not yet covered"),
